@@ -19,6 +19,7 @@ import (
 type mnode struct {
 	Name     string   // module node
 	Children []*mnode // module node
+	Twice    bool     // module node: the option is built twice from the same entry slice, the second one is used
 	Leaf     string   // "", add, remove, removeKeyed, nil
 	Reg      int      // index into the registration list (add)
 	T        int      // type id (remove*)
@@ -68,7 +69,7 @@ func removeOption(t int, keyed bool) godi.ModuleOption {
 }
 
 func genTree(rt *rapid.T, depth int, regs *[]kit.Reg) *mnode {
-	n := &mnode{Name: rapid.SampledFrom([]string{"m0", "m1", "m2", "app", ""}).Draw(rt, "mname")}
+	n := &mnode{Name: rapid.SampledFrom([]string{"m0", "m1", "m2", "app", ""}).Draw(rt, "mname"), Twice: rapid.IntRange(0, 2).Draw(rt, "twice") == 0}
 	k := rapid.IntRange(0, 5).Draw(rt, "fanout")
 	for i := 0; i < k; i++ {
 		c := rapid.IntRange(0, 9).Draw(rt, "child")
@@ -103,7 +104,13 @@ func (n *mnode) option(w *kit.World) godi.ModuleOption {
 	for i, c := range n.Children {
 		opts[i] = c.option(w)
 	}
-	return godi.NewModule(n.Name, opts...)
+	m := godi.NewModule(n.Name, opts...)
+	if n.Twice {
+		// the same entry list (a slice the caller keeps) is used to build the module a second time:
+		// building a module must not change the list it was given
+		m = godi.NewModule(n.Name, opts...)
+	}
+	return m
 }
 
 // flatten lists the leaves left to right with the names of their enclosing modules.
